@@ -155,8 +155,10 @@ impl Property for P {
         )
         .prop_map(|v| v.concat());
         let text = prop_oneof![
-            8 => gen::token_text(mix, tier.max_tokens()),
-            2 => only_endings,
+            160 => gen::token_text(mix, tier.max_tokens()),
+            40 => only_endings,
+            10 => gen::repeated(gen::token_text(mix.no_endings(), 6)),
+            1 => gen::long_text(mix),
         ];
         // (class, variant a, variant b) for each indent
         let ind = (0..CLASSES.len(), any::<u16>(), any::<u16>());
